@@ -546,13 +546,58 @@ class Inliner:
         T().generic_visit(st)
 
 
+def _inline_prebuilt_callables(program, known: Set[str]) -> List[str]:
+    """`_g = factory("x")` at module level (an unknown private name whose value is a call of a function of the same
+    module), used as `_g(self, ..)`: the use sites are analysed as `factory("x")(self, ..)`, the form the rules know for
+    callables made on the spot.  (Only *when* the callable is made differs, not what is called.)"""
+    log = []
+    for m in program.modules.values():
+        cands = {}
+        counts: Dict[str, int] = {}
+        for st in m.tree.body:
+            if isinstance(st, ast.Assign):
+                for t in st.targets:
+                    if isinstance(t, ast.Name):
+                        counts[t.id] = counts.get(t.id, 0) + 1
+        for name, val in m.assigns.items():
+            if not _is_private(name) or f"={m.name}.{name}" in known or counts.get(name) != 1:
+                continue
+            if isinstance(val, ast.Call) and isinstance(val.func, ast.Name) and val.func.id in m.functions and all(isinstance(a, ast.Constant) for a in list(val.args) + [k.value for k in val.keywords]):
+                cands[name] = val
+        if not cands:
+            continue
+
+        class T(ast.NodeTransformer):
+            hits = 0
+
+            def visit_Call(self, node):
+                self.generic_visit(node)
+                if isinstance(node.func, ast.Name) and node.func.id in cands:
+                    T.hits += 1
+                    node.func = ast.copy_location(copy.deepcopy(cands[node.func.id]), node.func)
+                    ast.fix_missing_locations(node)
+                return node
+
+        for fi in list(program.functions.values()):
+            if fi.module is m and fi.parent is None and not isinstance(fi.node, ast.Lambda):
+                local_stores = {x.id for x in ast.walk(fi.node) if isinstance(x, ast.Name) and isinstance(x.ctx, ast.Store)} | {a.arg for a in ast.walk(fi.node) if isinstance(a, ast.arg)}
+                if local_stores & set(cands):
+                    continue
+                before = T.hits
+                T().visit(fi.node)
+                if T.hits > before:
+                    log.append(f"{fi.qual}: uses of the module-level callable(s) {sorted(cands)} analysed as calls of their factory expression")
+    return log
+
+
 def apply(program) -> List[str]:
     known = load_known()
     if known is None:
         return []
+    log = _inline_prebuilt_callables(program, known) if any(k.startswith("=") for k in known) else []
     inl = Inliner(program, known)
     if not inl.helpers:
-        return []
+        return log
     inl.run()
     inl.drop_fully_inlined()
-    return inl.log
+    return log + inl.log
